@@ -58,7 +58,7 @@ BarInit == [exists |-> FALSE, total |-> 0, cur |-> 0, trig |-> FALSE, aborted |-
             index |-> 0, fills |-> 0, pushed |-> FALSE]
 
 CtInit == [pc |-> "idle", b |-> NoBar, cmd |-> "none", sync |-> FALSE, then |-> "none", c |-> 0, e |-> 0,
-           final |-> FALSE, rows |-> <<>>, prios |-> <<>>, exempt |-> FALSE, popc |-> 0,
+           final |-> FALSE, rows |-> <<>>, prios |-> <<>>, popm |-> <<>>, exempt |-> FALSE, popc |-> 0,
            iterClosed |-> FALSE, popClosed |-> FALSE,
            v |-> 0, lazy |-> FALSE]                         \* arguments of a pending priority change      \* close(iter) / close(iterPop) seen by the next receive
 
@@ -89,7 +89,7 @@ Init0 ==
    err   |-> FALSE, drain |-> "none", debug |-> 0,
    nwrites |-> 0, cuuPend |-> FALSE,   \* Writes on the output so far (saturating); a cursor-up sequence waits in the buffer
    cw    |-> 0,                \* text lines accepted and not yet written
-   out   |-> [rows |-> <<>>, prios |-> <<>>, exempt |-> FALSE, text |-> 0, pop |-> 0],   \* last frame written (observation)
+   out   |-> [rows |-> <<>>, prios |-> <<>>, popm |-> <<>>, exempt |-> FALSE, text |-> 0, pop |-> 0],   \* last frame written (observation)
    written |-> 0,              \* text lines written so far
    accepted |-> 0,
    bwg   |-> 0, ctgone |-> FALSE,
@@ -381,7 +381,7 @@ MicroDp(st, k) ==
   ELSE {}
 
 (* --- the container --- *)
-StartRender(st) == [st EXCEPT !.ct.pc = "hm_gate", !.ct.cmd = "sync", !.ct.rows = <<>>, !.ct.prios = <<>>, !.ct.popc = 0]
+StartRender(st) == [st EXCEPT !.ct.pc = "hm_gate", !.ct.cmd = "sync", !.ct.rows = <<>>, !.ct.prios = <<>>, !.ct.popm = <<>>, !.ct.popc = 0]
 
 FlushNext(st) == [st EXCEPT !.ct.pc = "recv_pop", !.ct.b = NoBar]
 
@@ -413,7 +413,8 @@ MicroCt(st) ==
          LET b == T.b F == st.bar[b].frame IN
          IF ~F.has THEN {}
          ELSE IF F.err THEN {[st EXCEPT !.bar[b].frame.has = FALSE, !.ct.pc = "drop_gate"]}
-         ELSE LET st1 == [st EXCEPT !.bar[b].frame.has = FALSE, !.ct.rows = Append(@, b), !.ct.prios = Append(@, st.bar[b].prio)] IN
+         ELSE LET st1 == [st EXCEPT !.bar[b].frame.has = FALSE, !.ct.rows = Append(@, b), !.ct.prios = Append(@, st.bar[b].prio),
+                                         !.ct.popm = Append(@, F.sd = 2 /\ Pop /\ ~F.nopop)] IN   \* popm: this row leaves the heap with this frame
               IF F.sd = 1 THEN {[st1 EXCEPT !.ct.pc = "cancel_gate"]}
               ELSE IF F.sd = 2 /\ Pop /\ ~F.nopop THEN {FlushNext([st1 EXCEPT !.ct.popc = @ + 1])}
               ELSE {PushThen(st1, b, FALSE, "flush")}
@@ -431,7 +432,7 @@ MicroCt(st) ==
          \* cw.Flush: one Write on the output unless there is nothing to write (no rows, no text, no pending cursor-up)
          LET writes == Len(T.rows) > 0 \/ st.cw > 0 \/ st.cuuPend
              failsOut == writes /\ Fault.at # 0 /\ Fault.kind = "out" /\ st.nwrites + 1 = Fault.at
-             st1 == [st EXCEPT !.out = [rows |-> T.rows, prios |-> T.prios, exempt |-> T.exempt, text |-> st.cw, pop |-> T.popc],
+             st1 == [st EXCEPT !.out = [rows |-> T.rows, prios |-> T.prios, popm |-> T.popm, exempt |-> T.exempt, text |-> st.cw, pop |-> T.popc],
                                !.written = @ + st.cw, !.cw = 0, !.nwrites = IF writes /\ @ < 3 THEN @ + 1 ELSE @,
                                !.cuuPend = Len(T.rows) - T.popc > 0] IN
          IF failsOut   \* the error comes back from render(): serve() starts the drain goroutine and cancels (no drop: the cycle is over)
@@ -714,6 +715,11 @@ NeverTwice == \A b \in Bars : s.bar[b].exists => Where(s, b) <= 1
    ordered iteration hands them over highest value first, the container reverses them), except in the
    frame that follows a lazy priority change *)
 SortedFrames == s.out.exempt \/ \A i, j \in DOMAIN s.out.prios : i < j => s.out.prios[i] >= s.out.prios[j]
+
+(* C18: the rows a frame pops out are its topmost rows (rows are collected bottom row first, so once a popped row has been
+   collected every later one is popped too): the cursor is moved up by rows - popped before the next frame, which leaves
+   exactly the topmost `popped` lines on the screen for good *)
+PoppedOnTop == \A i, j \in DOMAIN s.out.popm : (i < j /\ s.out.popm[i]) => s.out.popm[j]
 
 NoDupInFrame == \A i, j \in DOMAIN s.out.rows : i # j => s.out.rows[i] # s.out.rows[j]
 
